@@ -38,6 +38,26 @@ def gen(ctx):
             continue
         c.update({"cuts": cuts, "total": total, "f": rng.choice([1, 2, 3]), "m": rng.choice([1, 2, 5]), "async": rng.random() < 0.5, "route": "load", "tabular": True})
         out.append(c)
+    # directed: the uninterrupted run CONVERGES (at iteration >= 5) and the interruption lies before that point, so state that
+    # only feeds the convergence test (history, discount scaling, gain) decides where the resumed run stops
+    for i, solver in enumerate(["pvi", "pvi", "vi", "rvi", "savi"] if quick else ["pvi", "vi", "rvi", "savi"] * 8):
+        kw = {"family": "tab", "denom": 2, "eps": F(1, 8) if i % 2 else F(1, 64), "ks": [16]}
+        if solver != "rvi":
+            kw["g"] = F(1, 2)
+        if solver == "pvi":
+            kw["clear"] = False
+        if solver == "savi":
+            kw["shuffle"] = False
+        cs = runs.generate(ctx, solver, 1, max_tries=60, accept=lambda c, r: r[-1]["converged"] and r[-1]["iteration"] >= 5, **kw)
+        if not cs:
+            continue
+        c = cs[0]
+        rng = random.Random(c["seed"])
+        conv = runs.reference(c)[0][-1]["iteration"]
+        cuts = sorted(rng.sample(range(2, conv), min(rng.choice([1, 2]), conv - 2)))
+        c.update({"cuts": cuts, "total": 16, "f": rng.choice([1, 2, 3]), "m": rng.choice([1, 2, 5]), "async": rng.random() < 0.5, "route": "load", "tabular": True,
+                  "converges_after_the_interruption_at": conv})
+        out.append(c)
     # shipped problems through the class-level restore() route (configuration reloaded from YAML)
     for j, prob in enumerate(SHIPPED if not quick else SHIPPED[:2] + [SHIPPED[3]]):
         sub = ctx.rng.randrange(10 ** 9)
